@@ -1835,7 +1835,7 @@ impl Timestamp {
         let args: TimestampDifference = other.into();
         let span = args.until_with_largest_unit(self)?;
         if args.rounding_may_change_span() {
-            span.round(args.round)
+            span.round(args.round.largest(args.get_largest()))
         } else {
             Ok(span)
         }
@@ -1871,7 +1871,7 @@ impl Timestamp {
         let args: TimestampDifference = other.into();
         let span = -args.until_with_largest_unit(self)?;
         if args.rounding_may_change_span() {
-            span.round(args.round)
+            span.round(args.round.largest(args.get_largest()))
         } else {
             Ok(span)
         }
@@ -3409,6 +3409,15 @@ impl TimestampDifference {
         TimestampDifference { round: self.round.increment(increment), ..self }
     }
 
+    /// Returns the largest unit of the span computed by this configuration:
+    /// either the one set explicitly or the default.
+    #[inline]
+    fn get_largest(&self) -> Unit {
+        self.round
+            .get_largest()
+            .unwrap_or_else(|| self.round.get_smallest().max(Unit::Second))
+    }
+
     /// Returns true if and only if this configuration could change the span
     /// via rounding.
     #[inline]
@@ -3422,10 +3431,7 @@ impl TimestampDifference {
     #[inline]
     fn until_with_largest_unit(&self, t1: Timestamp) -> Result<Span, Error> {
         let t2 = self.timestamp;
-        let largest = self
-            .round
-            .get_largest()
-            .unwrap_or_else(|| self.round.get_smallest().max(Unit::Second));
+        let largest = self.get_largest();
         if largest >= Unit::Day {
             return Err(err!(
                 "unit {largest} is not supported when computing the \
